@@ -351,7 +351,7 @@ def setup_worker():
     orig_cmp = sm._compute_event_comparison_score
 
     def cmp_wrapper(state, event, ref_event, priority=None):
-        if getattr(event, "name", None) in ("E", "PairActionFinished", "PairActionUpdated", "FlowFinished") and not _C["active"]:
+        if getattr(event, "name", None) in ("E", "PairActionFinished", "PairActionUpdated", "PairActionStarted", "StartPairAction", "StopPairAction", "ChangePairAction", "FlowFinished") and not _C["active"]:
             _C["active"] = True
             try:
                 return orig_cmp(state, event, ref_event, priority)
@@ -383,8 +383,21 @@ def run_pair(case):
     if rng.random() < 0.1:
         extras["zz"] = [1, {"a": 2}]
     # a third of the pairs use an action event (received through ActionEvent.from_umim_event, with an action_uid)
-    evname = rng.choice(["E", "E", "E", "E", "PairActionFinished", "PairActionUpdated"])
-    src = "flow main\n  $cv = \"Ann\"\n  match %s(p=%s)\n  send Done()\n  match Never()\n" % (evname, render(p))
+    evname = rng.choice(["E", "E", "E", "E", "E", "PairActionFinished", "PairActionUpdated", "PairActionStarted", "StartPairAction", "StopPairAction", "ChangePairAction"])
+    written = evname
+    if evname != "E" and rng.random() < 0.5:
+        # the same action event in member notation: PairAction.Finished(...) / PairAction.Start(...) (UMIM puts the verb of
+        # Start / Stop / Change in front of the action name, of Started / Finished / Updated behind it)
+        verb = evname[: -len("PairAction")] if evname.endswith("PairAction") else evname[len("PairAction"):]
+        written = "PairAction.%s" % verb
+    src = "flow main\n  $cv = \"Ann\"\n  match %s(p=%s)\n  send Done()\n  match Never()\n" % (written, render(p))
+    if written == "PairAction.Start":
+        # (the member events Start / Stop take no arguments of their own: what a Start event carries are the arguments of
+        #  the action, written at the action)
+        src = "flow main\n  $cv = \"Ann\"\n  match PairAction(p=%s).Start()\n  send Done()\n  match Never()\n" % render(p)
+    elif written in ("PairAction.Stop", "PairAction.Change"):
+        written = evname
+        src = "flow main\n  $cv = \"Ann\"\n  match %s(p=%s)\n  send Done()\n  match Never()\n" % (written, render(p))
     # one pair in seven takes the INTERNAL route: the payload is a value the interpreter itself holds (a variable passed as
     # a flow parameter, which the interpreter wraps in its own dict subclass) and arrives inside an internal FlowFinished event
     internal = rng.random() < 0.15 and not extras and _colang_literal_ok(v)
@@ -435,11 +448,15 @@ def run_pair(case):
         "kind_" + type(p).__name__: 1,
         "with_extra_params": int(bool(extras)),
         "on_action_event": int(evname != "E"),
+        "action_event_in_member_notation": int(written != evname),
+        "action_event_" + evname: 1,
         "payload_through_internal_event": int(bool(internal)),
         "max_pattern_depth": depth(p),
     }
     base["sample"]["marker"] = got
-    if _C["evals"] == 0:
+    if _C["evals"] == 0 and not (exp and got is False and exc is None):
+        # (an event the spec says MATCHES that left the statement waiting is a verdict even when the scoring function was never
+        #  asked: the head was not even a candidate for the event)
         return dict(base, verdict="inconclusive", reason="monitor-not-reached", observed=obs, nontrivial=False)
     if exc is not None or got != exp or _C["viol"]:
         return dict(
